@@ -1240,6 +1240,23 @@ where
                 trace!("Client message: {}", code);
 
                 match code {
+                    // Extended protocol messages are not valid while a COPY is in progress.
+                    // The server aborts the COPY and then answers the batch separately, which
+                    // would leave a reply unread on this connection for the next client.
+                    'P' | 'B' | 'D' | 'E' | 'C' if server.in_copy_mode() => {
+                        server.mark_bad("client sent an extended protocol message during COPY");
+                        error_response_terminal(
+                            &mut self.write,
+                            "unexpected extended protocol message during COPY",
+                        )
+                        .await?;
+
+                        return Err(Error::ProtocolSyncError(format!(
+                            "Unexpected message {} during COPY",
+                            code
+                        )));
+                    }
+
                     // Query
                     'Q' => {
                         if query_router.query_parser_enabled() {
